@@ -48,6 +48,14 @@ type c06cCase struct {
 	Chunks []int  `json:"chunks"` // sizes of the peer's Writes (cycled)
 	End    string `json:"end"`    // "fin" | "reset"
 	Bsz    int    `json:"bsz"`    // len of the buffer the application reads with
+	// read-deadline histories: the peer stops before byte offset Pauses[i] of what it serves (0 = before the response,
+	// len(frame) = response complete and no data yet, larger = inside the data; an offset inside the response frame =
+	// the response arrives in two parts) and goes on only after a Read of the application has failed with a deadline
+	// error; the application reads with SetReadDeadline(now + To ms), retries after a timeout (the usual poll pattern)
+	// and stops at the first error that is not a timeout
+	Pauses []int `json:"pauses"`
+	To     int   `json:"to"`  // deadline (ms) of the polls at a pause before anything was served (nothing is in flight then)
+	To2    int   `json:"to2"` // deadline (ms) of the polls at the later pauses (what was served before must have arrived by then)
 }
 
 func c06cDigest(b []byte) uint64 {
@@ -147,6 +155,18 @@ func c06cRun(c c06cCase, cc, sc *quic.Conn, res map[string]any) {
 	if c.Cut >= 0 && c.Cut < len(all) {
 		served = all[:c.Cut]
 	}
+	// pauses the peer makes (sorted, within what is served; without fast open TCP() itself waits for the whole response,
+	// with no deadline, so only pauses behind the frame make sense there)
+	var pauses []int
+	for _, x := range c.Pauses {
+		if x >= 0 && x <= len(served) && (c.FO || x >= len(frame)) && (len(pauses) == 0 || x > pauses[len(pauses)-1]) {
+			pauses = append(pauses, x)
+		}
+	}
+	cont := make([]chan struct{}, len(pauses))
+	for i := range cont {
+		cont[i] = make(chan struct{})
+	}
 	peerCh := make(chan c06cPeer, 1)
 	go func() {
 		var p c06cPeer
@@ -171,18 +191,37 @@ func c06cRun(c c06cCase, cc, sc *quic.Conn, res map[string]any) {
 		}
 		p.addr = addr
 		rest := served
-		for k := 0; len(rest) > 0; k++ {
+		off, pi := 0, 0
+		for k := 0; ; k++ {
+			for pi < len(pauses) && pauses[pi] <= off {
+				if pauses[pi] == off {
+					select {
+					case <-cont[pi]:
+					case <-time.After(20 * time.Second):
+						p.err = "the application never reported a timeout"
+						return
+					}
+				}
+				pi++
+			}
+			if len(rest) == 0 {
+				break
+			}
 			n := len(rest)
 			if len(c.Chunks) > 0 {
 				if w := c.Chunks[k%len(c.Chunks)]; w > 0 && w < n {
 					n = w
 				}
 			}
+			if pi < len(pauses) && pauses[pi] < off+n {
+				n = pauses[pi] - off
+			}
 			if _, err := st.Write(rest[:n]); err != nil {
 				p.err = "write: " + err.Error()
 				return
 			}
 			rest = rest[n:]
+			off += n
 		}
 		if c.End == "reset" {
 			st.CancelWrite(7)
@@ -199,14 +238,56 @@ func c06cRun(c c06cCase, cc, sc *quic.Conn, res map[string]any) {
 	var got []byte
 	fcls, fmsg := "", ""
 	nreads := 0
+	timeouts := 0
 	if terr == nil {
-		_ = conn.SetReadDeadline(time.Now().Add(10 * time.Second))
 		bsz := c.Bsz
 		if bsz <= 0 {
 			bsz = 4096
 		}
 		buf := make([]byte, bsz)
-		for {
+		to0 := time.Duration(c.To) * time.Millisecond
+		if to0 <= 0 {
+			to0 = 20 * time.Millisecond
+		}
+		to2 := time.Duration(c.To2) * time.Millisecond
+		if to2 <= 0 {
+			to2 = 150 * time.Millisecond
+		}
+		// one pause of the peer after the other: poll with a short deadline until a Read times out, then let the peer go on
+	poll:
+		for i := range pauses {
+			to := to2
+			if pauses[i] == 0 {
+				to = to0
+			}
+			for {
+				_ = conn.SetReadDeadline(time.Now().Add(to))
+				n, rerr := conn.Read(buf)
+				nreads++
+				got = append(got, buf[:n]...)
+				if rerr != nil {
+					if cls, _ := c06cClass(rerr); cls == "timeout" {
+						timeouts++
+						close(cont[i])
+						break
+					}
+					fcls, fmsg = c06cClass(rerr)
+					for j := i; j < len(pauses); j++ {
+						close(cont[j])
+					}
+					break poll
+				}
+				if len(got) > len(all)+16 {
+					fcls = "overrun"
+					for j := i; j < len(pauses); j++ {
+						close(cont[j])
+					}
+					break poll
+				}
+			}
+		}
+		_ = conn.SetReadDeadline(time.Now().Add(10 * time.Second))
+		for fcls == "" {
 			n, rerr := conn.Read(buf)
 			nreads++
 			got = append(got, buf[:n]...)
@@ -220,11 +301,17 @@ func c06cRun(c c06cCase, cc, sc *quic.Conn, res map[string]any) {
 			}
 		}
 		_ = conn.Close()
+	} else {
+		for i := range cont {
+			close(cont[i])
+		}
 	}
 	p := <-peerCh
 	res["final"], res["final_msg"] = fcls, fmsg
 	res["got"] = []uint64{uint64(len(got)), c06cDigest(got)}
 	res["reads"] = nreads
+	res["timeouts"] = timeouts
+	res["pauses"] = pauses
 	res["peer_err"], res["peer_addr_ok"] = p.err, p.addr == c.Addr && p.ft == protocol.FrameTypeTCPRequest
 	res["served"] = len(served)
 
